@@ -221,7 +221,12 @@ def compare_doc(s, xsd, doc, nchunks, st, label, replaying=False):
     chunk_xmlns = any(eres.get_xmlns(c) for c in eres.root)
     tails = any((c.tail or '').strip() for c in eres.root)
     nil_list = 'nil=' in doc and 'itemType' in xsd
-    tags = [c.tag for c in eres.root]
+    # the dictionary KEY of a child is its name under the prefixes in scope at that child: the same tag written with
+    # another prefix (an inner declaration that rebinds) is another key, so the keys can be non contiguous when the tags are
+    def _key(c):
+        ns = c.tag[1:].split('}')[0] if c.tag[:1] == '{' else ''
+        return c.tag, frozenset(p_ for p_, u in eres.get_nsmap(c).items() if u == ns)
+    tags = [_key(c) for c in eres.root]
     contiguous = all(t not in tags[:i] or tags[i - 1] == t for i, t in enumerate(tags))
     bjm = jsonize(lambda: xmlschema.to_json(doc, schema=s, validation='lax', converter=xmlschema.JsonMLConverter))
     nt = nchunks >= 3 and (len(base_errs) > 0 or 'key' in xsd)
